@@ -40,16 +40,21 @@ STREAM_API = {
 
 
 class WriteOnly:
+    """A buffering, non-seekable sink (pipe / socket file): what was written reaches the consumer
+    (`buf`) only when flush() is called."""
+
     def __init__(self):
         self.buf = bytearray()
+        self.unflushed = bytearray()
         self.touched = []
 
     def write(self, b):
-        self.buf += b
+        self.unflushed += b
         return len(b)
 
     def flush(self):
-        pass
+        self.buf += self.unflushed
+        del self.unflushed[:]
 
     def seekable(self):
         return False
